@@ -120,6 +120,30 @@ var slots = []slot{
 	{Name: "incname", Subst: true, Val: "extra", Alt: "nosuch", Text: "~p~.cfg"},
 }
 
+// extraVals: further values of p for substituted fields — keywords of the
+// field, boundary numbers, other legal spellings.  Each is checked under -D
+// and under an in-file default against the same text with the value written
+// out (which may be accepted or rejected: only equality is required).  No
+// value has leading/trailing blanks, a newline, a final backslash or a ~name~
+// of its own: writing those out is not the same text.
+var extraVals = map[string][]string{
+	"title":      {"unconstrained", "always", "end", "~", "a  b", "include x", "100%"},
+	"attention":  {"throughout", "#not a comment", "~~", "a\\b"},
+	"extends":    {"doc"},
+	"castrole":   {"nurse", "docs", "every"},
+	"mul":        {"1", "0", "-1", "+2", "007", "two", "2.0"},
+	"env":        {"unconstrained", "A=1 B=2", "with", "X='a b'; Y=2"},
+	"sceneevery": {"nurse", "every", "docs"},
+	"count":      {"0", "-1", "always", "007", "+4", "1e1"},
+	"dur":        {"unconstrained", "5m", "0", "1h2m3s", "always", "-1s", "10", "Unconstrained"},
+	"watchevery": {"nurse", "docs"},
+	"auditexpr":  {"t", "true", "(1+2)", "'x'", "moodt", "throughout"},
+	"cexpr":      {"t", "mood", "1e3", "true"},
+	"pexpr":      {"2", "moodt", "(t)", "-1"},
+	"expexpr":    {"always", "1", "moodt", "t"},
+	"incname":    {"./extra", "sub/../extra", "extra.cfg/../extra"},
+}
+
 // defModes: how p is (not) defined.
 var defModes = []string{"D", "F", "B", "N", "FF", "DD", "DF-tilde"}
 
@@ -151,14 +175,24 @@ func renderTemplate(s *slot, text string, preamble []string) string {
 // plantedCase is one (slot, definition mode) experiment.
 type plantedCase struct {
 	Slot, Mode string
+	Value      string // extra-value experiments: the value of p
+	NeedAccept bool   // the value was chosen to keep the configuration valid: it must be accepted
 	Subst      bool
 	Winner     string // the value p must have by the precedence rules ("" when undefined)
 	In, Ref    *input // the planted configuration; the same with the winner's value written out
 	Line       int    // physical line of the planted field in m.cfg
 }
 
+// makePlantedValue is makePlanted for another value of p (modes D and F).
+func makePlantedValue(s slot, mode, val string) plantedCase {
+	s.Val = val
+	pc := makePlanted(s, mode)
+	pc.Value, pc.NeedAccept = val, false
+	return pc
+}
+
 func makePlanted(s slot, mode string) plantedCase {
-	pc := plantedCase{Slot: s.Name, Mode: mode, Subst: s.Subst}
+	pc := plantedCase{Slot: s.Name, Mode: mode, Subst: s.Subst, NeedAccept: true}
 	var pre, defs []string
 	switch mode {
 	case "D":
